@@ -12,7 +12,7 @@ JOIN = {"NONE": "", "SPACE": " ", "OF": " of ", "OFTHE": " of the "}
 CONSTS = {"MaxLen": 1, "Fault": "none", "EmitCases": False}
 
 
-def spell(kind, cls, d, rng):
+def spell(kind, cls, d, rng, glued_after=False):
     if kind == "H":
         w = HALF_WORD[d]
         opts = {"SYM": [d + "½"], "SLASH": [d + "/2"], "BARE": [d + "2", d + "2", d + " 2"],
@@ -26,7 +26,9 @@ def spell(kind, cls, d, rng):
                 "FRAC": [d + " 1/4", d + "1/4", d + " / 4", dotted + " 1/4"],
                 "WORD": [x + " Quarter" for x in ws] + [ws[1].replace(" ", "-") + " Quarter"],
                 "WORDONE": [x + " One Quarter" for x in ws] + [ws[0] + " One-Quarter"],
-                "WORDFRAC": [ws[0] + " 1/4"], "BAREQ": [d]}[cls]
+                "WORDFRAC": [ws[0] + " 1/4"],
+                # (the dotted bare quarter 'N.E.' only where something separates it from what follows)
+                "BAREQ": [d] if glued_after else [d, d, d, dotted]}[cls]
     s = rng.choice(opts)
     r = rng.random()
     if cls != "SYM":
@@ -65,9 +67,10 @@ def mk_case(cid, w, js, clean, recognised, rng, origin="tlc"):
             dirs.append(same[-1] if same and rng.random() < 0.5 else rng.choice(pool))
         else:
             dirs.append(hs.pop() if c["kind"] == "H" else qs.pop())
-    text = spell(w[0]["kind"], w[0]["class"], dirs[0], rng)
-    for j, c, d in zip(js, w[1:], dirs[1:]):
-        text += JOIN[j] + spell(c["kind"], c["class"], d, rng)
+    glued = [k < len(js) and js[k] == "NONE" for k in range(len(w))]
+    text = spell(w[0]["kind"], w[0]["class"], dirs[0], rng, glued[0])
+    for k, (j, c, d) in enumerate(zip(js, w[1:], dirs[1:]), start=1):
+        text += JOIN[j] + spell(c["kind"], c["class"], d, rng, glued[k])
     canon = "".join(d + ("½" if c["kind"] == "H" else "¼") for c, d in zip(w, dirs))
     return {"id": cid, "kind": "c07", "origin": origin,
             "abs": {"w": w, "js": list(js), "clean": bool(clean), "dirs": dirs},
